@@ -325,7 +325,11 @@ func (cl *fdlClient) next(w []byte) ([]byte, bool) {
 		it := &fdlItem{hdr: w, isDir: isDir}
 		cl.items = append(cl.items, it)
 		if err != nil {
-			cl.proto = append(cl.proto, "item header: "+err.Error())
+			prev := "none"
+			if n := len(cl.items); n >= 2 {
+				prev = fmt.Sprintf("%q answered %q", cl.items[n-2].key, cl.items[n-2].act)
+			}
+			cl.proto = append(cl.proto, "expected an item header (previous item: "+prev+"): "+err.Error())
 			return nil, true
 		}
 		it.key = compsKey(comps)
